@@ -173,7 +173,12 @@ void World::exec_op(const Op &op) {
 		if (cl->accepted) { KFd *kk = g_kernel.get(cl->fd); if (kk) g_kernel.mark_pending(*kk); }
 		return;
 	}
-	if (k == "stall") { cl->space = (int64_t)op.a.getd("n", 0); probe("fault:stall"); return; }
+	if (k == "stall") {
+		bool was0 = cl->space == 0;
+		cl->space = (int64_t)op.a.getd("n", 0); probe("fault:stall");
+		if (was0 && cl->space != 0 && cl->accepted) { KFd *kk = g_kernel.get(cl->fd); if (kk) g_kernel.mark_pending(*kk); cl->blocked = false; probe("writable_again"); }
+		return;
+	}
 	if (k == "drain" || k == "resume") {
 		bool was0 = cl->space == 0;
 		if (k == "resume") cl->space = -1; else if (cl->space >= 0) cl->space += (int64_t)op.a.getd("n", 1);
@@ -200,6 +205,7 @@ void World::quiescent_point() {
 		int np = get_number_of_peers_fn()();
 		if (np > base_peers + open) violation(plan.hdr.gets("baseprop", "C07"), "orphan-peer", "the daemon counts " + std::to_string(np) + " peers while only " + std::to_string(open) + " connections are open");
 	}
+	c10_quiescent();
 	for (auto &c : clients) {
 		if (c.policy.gets("expect_http") == "reject" && c.hs_sent && c.accepted && !c.daemon_closed && !c.http_err_seen)
 			violation("C13", "invalid-request-not-answered", "a complete request that is not a valid upgrade (" + c.policy.gets("defect") + ") was neither answered with an error status nor closed");
@@ -241,7 +247,7 @@ bool World::next_phase() {
 			bool serial = plan.hdr.getb("end_close_serial");
 			if (!serial) phase = 2;
 			bool any = false;
-			for (auto &cl : clients) if (cl.connected && !cl.client_closed && !cl.daemon_closed) {
+			for (auto &cl : clients) if (cl.connected && !cl.daemon_closed && !(cl.eof || cl.hup || cl.rx_err)) {
 				if (serial && any) break;      // one connection at a time: the order in which connections end is part of the input
 				cl.client_closed = true; cl.eof = true; any = true;
 				if (cl.space >= 0) { cl.space = -1; }
